@@ -925,9 +925,9 @@ def cases(tier: str, seed: int) -> List[Case]:
                     continue
                 for args in itertools.product(ARG_KINDS, repeat=na):
                     idx += 1
-                    if ns >= 2 and (idx + seed) % (20 if quick else 3) != 0:
+                    if ns == 2 and (idx + seed) % (25 if quick else 5) != 0:
                         continue
-                    if ns >= 3 and (idx + seed) % 31 != 0:
+                    if ns >= 3 and (idx + seed) % 400 != 0:
                         continue
                     lab = "args:" + ",".join(specs) + "|" + ",".join(args)
                     out.append(Case("h17_args", lab, {"specs": list(specs), "args": list(args)}, timeout=60,
